@@ -450,8 +450,8 @@ theorem decoder_safe (R : Registry) (gz : Bytes → Option Bytes) : ∀ (fuel : 
                   | none => exact safe_err _
                   | some plain =>
                     simp only
-                    have := ihReg plain [] (by intro h hh; simp at hh)
-                    cases h3 : decRegistered R gz fuel plain [] with
+                    have := ihReg plain hs H
+                    cases h3 : decRegistered R gz fuel plain hs with
                     | err _ => exact safe_err _
                     | panic s => rw [h3] at this; exact this.elim
                     | ok q2 => obtain ⟨inner, _, _⟩ := q2; exact H
